@@ -13,12 +13,13 @@ import NTV.Driver.C11
 import NTV.Driver.C08
 import NTV.Driver.C18
 import NTV.Driver.C20
+import NTV.Driver.C07
 /-! Line-protocol driver. Input line: `op<TAB>arg…<TAB>=><TAB>implAnswer`.
 Output line: `modelAnswer<TAB>verdict`. -/
 open NTV.Parse
 
 def allOps : List (String × Handler) :=
-  NTV.Driver.C19.ops ++ NTV.Driver.C09.ops ++ NTV.Driver.C02.ops ++ NTV.Driver.C13.ops ++ NTV.Driver.C04.ops ++ NTV.Driver.C05.ops ++ NTV.Driver.C10.ops ++ NTV.Driver.C01.ops ++ NTV.Driver.PM.ops ++ NTV.Driver.C12.ops ++ NTV.Driver.C11.ops ++ NTV.Driver.C08.ops ++ NTV.Driver.C18.ops ++ NTV.Driver.C20.ops
+  NTV.Driver.C19.ops ++ NTV.Driver.C09.ops ++ NTV.Driver.C02.ops ++ NTV.Driver.C13.ops ++ NTV.Driver.C04.ops ++ NTV.Driver.C05.ops ++ NTV.Driver.C10.ops ++ NTV.Driver.C01.ops ++ NTV.Driver.PM.ops ++ NTV.Driver.C12.ops ++ NTV.Driver.C11.ops ++ NTV.Driver.C08.ops ++ NTV.Driver.C18.ops ++ NTV.Driver.C20.ops ++ NTV.Driver.C07.ops
 
 def handleLine (line : String) : String :=
   let fields := line.splitOn "\t"
